@@ -173,34 +173,62 @@ def rule_r2(rep, repo):
     for g_ in repo.funcs.values():   # a shared helper may apply the maps on behalf of several classes
         if g_.module == "onedgrid" and g_.cls is None and not g_.is_lambda and isinstance(g_.node, ast.FunctionDef):
             scopes.append((g_.name, g_))
+    # module-level tables of rows `(order, map, derivative)`: a loop `for order, g, dg in TABLE` is read once per row
+    import copy
+    tables = {}
+    for st in repo.modules["onedgrid"].tree.body:
+        if isinstance(st, ast.Assign) and len(st.targets) == 1 and isinstance(st.targets[0], ast.Name) and \
+                isinstance(st.value, (ast.Tuple, ast.List)) and st.value.elts and \
+                all(isinstance(r_, (ast.Tuple, ast.List)) for r_ in st.value.elts):
+            tables[st.targets[0].id] = [list(r_.elts) for r_ in st.value.elts]
     for k, init in scopes:
         branches = [init.node.body]
-        for s in ast.walk(init.node):
-            if isinstance(s, ast.If):
-                branches.append(s.body)
-                branches.append(s.orelse)
+        roots = [init.node]
+        for loop in [s for s in ast.walk(init.node) if isinstance(s, ast.For)]:
+            if isinstance(loop.iter, ast.Name) and loop.iter.id in tables and isinstance(loop.target, ast.Tuple) and \
+                    all(isinstance(t_, ast.Name) for t_ in loop.target.elts):
+                for row in tables[loop.iter.id]:
+                    if len(row) != len(loop.target.elts):
+                        continue
+                    bind = {t_.id: r_ for t_, r_ in zip(loop.target.elts, row)}
+
+                    class Row(ast.NodeTransformer):
+                        def visit_Name(self, n):
+                            return copy.deepcopy(bind[n.id]) if n.id in bind and isinstance(n.ctx, ast.Load) else n
+                    inst = ast.Module(body=[Row().visit(copy.deepcopy(b_)) for b_ in loop.body], type_ignores=[])
+                    roots.append(inst)
+                    branches.append(inst.body)
+        for root in roots:
+            for s in ast.walk(root):
+                if isinstance(s, ast.If):
+                    branches.append(s.body)
+                    branches.append(s.orelse)
         for body in branches:
             asg = {norm(s.targets[0]): s.value for s in body if isinstance(s, ast.Assign) and len(s.targets) == 1}
-            pv, wv = asg.get("points"), asg.get("weights")
-            if pv is None or wv is None or not isinstance(pv, ast.Call) or norm(pv.func) not in pair_of:
-                continue
-            n += 1
-            gname = norm(pv.func)
-            want = pair_of[gname]
-            args = [norm(a) for a in pv.args]
-            dcalls = [c for c in ast.walk(wv) if isinstance(c, ast.Call) and norm(c.func).startswith("_der")]
-            okk = len(dcalls) == 1 and norm(dcalls[0].func) == want and [norm(a) for a in dcalls[0].args] == args and \
-                isinstance(wv, ast.BinOp) and isinstance(wv.op, ast.Mult) and \
-                {norm(wv.left), norm(wv.right)} == {norm(dcalls[0]), args[-1].replace(".points", ".weights")}
-            cons = f"onedgrid.{k}.__init__" if init.cls else f"onedgrid.{k}"
-            if okk:
-                rep.ok("R2.map-applied-with-its-derivative", f"{k}[{gname}]", repo.rel("onedgrid", pv),
-                       f"points = {gname}(x), weights = {want}(x) * w")
-            else:
-                rep.violation("R2.map-applied-with-its-derivative", cons, gname,
-                              f"the nodes are mapped with {gname}({', '.join(args)}) but the weights are "
-                              f"`{norm(wv)[:80]}`: they must be {want}({', '.join(args)}) times the weights of the "
-                              f"underlying rule", repo.rel("onedgrid", wv))
+            sites = [(asg.get("points"), asg.get("weights"))]
+            # `return g(x), dg(x) * w`: the helper hands back the pair
+            sites += [(s.value.elts[0], s.value.elts[1]) for s in body
+                      if isinstance(s, ast.Return) and isinstance(s.value, ast.Tuple) and len(s.value.elts) == 2]
+            for pv, wv in sites:
+                if pv is None or wv is None or not isinstance(pv, ast.Call) or norm(pv.func) not in pair_of:
+                    continue
+                n += 1
+                gname = norm(pv.func)
+                want = pair_of[gname]
+                args = [norm(a) for a in pv.args]
+                dcalls = [c for c in ast.walk(wv) if isinstance(c, ast.Call) and norm(c.func).startswith("_der")]
+                okk = len(dcalls) == 1 and norm(dcalls[0].func) == want and [norm(a) for a in dcalls[0].args] == args and \
+                    isinstance(wv, ast.BinOp) and isinstance(wv.op, ast.Mult) and \
+                    {norm(wv.left), norm(wv.right)} == {norm(dcalls[0]), args[-1].replace(".points", ".weights")}
+                cons = f"onedgrid.{k}.__init__" if init.cls else f"onedgrid.{k}"
+                if okk:
+                    rep.ok("R2.map-applied-with-its-derivative", f"{k}[{gname}]", repo.rel("onedgrid", pv),
+                           f"points = {gname}(x), weights = {want}(x) * w")
+                else:
+                    rep.violation("R2.map-applied-with-its-derivative", cons, gname,
+                                  f"the nodes are mapped with {gname}({', '.join(args)}) but the weights are "
+                                  f"`{norm(wv)[:80]}`: they must be {want}({', '.join(args)}) times the weights of the "
+                                  f"underlying rule", repo.rel("onedgrid", wv))
     rep.floor("Trefethen map applications", n, 3)
 
 
